@@ -100,6 +100,15 @@ HistAt(j) ==
 ForIdx == <<<<>>, <<1>>, <<2>>, <<7>>, <<1, 0, 0>>, BnSub(Two31, <<1>>), Two31, BnSub(BnPow2(32), <<1>>), BnPow2(32), BnPow2(63)>>
 ForIndexAt(j) == KItem("path.for_index", "for_index", [index |-> Str(DecCodes(BnToDec(ForIdx[j])))])
 
+\* HISTORIES of for_index on one thread: every word of length 3 over the index alphabet (valid and invalid indices,
+\* repeated or not), 25 words per history: the answer depends on the index alone
+NForIdxHist == (Len(ForIdx) * Len(ForIdx) * Len(ForIdx)) \div 25
+ForIdxHistAt(j) ==
+  LET L == Len(ForIdx)
+      word(q) == LET k == (j - 1) * 25 + q - 1 IN <<1 + (k \div (L * L)), 1 + ((k \div L) % L), 1 + (k % L)>>
+      step(x) == [op |-> "path.for_index", in |-> [index |-> Str(DecCodes(BnToDec(ForIdx[x])))]]
+  IN  KItem("seq", "for_index_words", [steps |-> Concat([q \in 1..25 |-> LET w == word(q) IN <<step(w[1]), step(w[2]), step(w[3])>>])])
+
 \* ---- derivation ------------------------------------------------------------------
 SeedLens == <<1, 16, 32, 64, 65, 128>>
 CompIdx  == <<<<>>, <<1>>, <<2>>, <<44>>, <<60>>, <<255>>, <<1, 0>>, <<255, 255>>, <<1, 0, 0>>, <<255, 255, 255>>,
@@ -283,9 +292,9 @@ SigMutAt(j) ==
   IN  KItem("sig.parse", "mutate_every_position",
             [text |-> Utf8ToStr(SubSeq(text, 1, pos - 1) \o MutChars[c] \o SubSeq(text, pos + 1, Len(text)))])
 \* bulk sweeps: 2^15 signatures per item over counter-generated digests, compared chunk-wise (4096) through hashes
-\* with the specification's signatures (Ecdsa!BulkSignHash): 2^18 signatures per quick run, 2^25 per thorough run
+\* with the specification's signatures (Ecdsa!BulkSignHash): 2^18 signatures per quick run, 2^24 per thorough run (VERIF_BULK=1024: 2^25)
 \* (VERIF_BULK overrides the number of items)
-NBulk == IF "VERIF_BULK" \in DOMAIN IOEnv THEN atoi(IOEnv.VERIF_BULK) ELSE IF Thorough THEN 1024 ELSE 8
+NBulk == IF "VERIF_BULK" \in DOMAIN IOEnv THEN atoi(IOEnv.VERIF_BULK) ELSE IF Thorough THEN 512 ELSE 8
 BulkAt(j) ==
   KItem("key.sign.bulk", "bulk",
         [secret |-> BytesToHex(IF j % 2 = 0 THEN SignKeys[4] ELSE Prng(K("bk", <<j>>), 31) \o <<1>>),
